@@ -266,7 +266,8 @@ def main():
                       "of the model Base/Texp.v and are re-validated at every kink on every run",
                       "tanh' of unscaled binary/ternary is a float32 oracle, compared with float64 to 2^-20",
                       "bernoulli / stochastic_* / quantized_ulaw / quantized_hswish are not covered (random or log surrogates)"]
-  return rep.finish(vlib.TRUSTED_COMMON + ["the texp of each return expression is written by hand from the source lines named in Quant/Grad.v; "
+  return rep.finish(vlib.TRUSTED_COMMON + ["translators tools/translate/{retgen,qbitsgen,relucallgen}.py regenerate coq/gen/{RetGen,QBitsGen,ReluCallGen}.v (straight-through return shapes; the unquantized surrogate of quantized_relu)",
+                                          "the texp of each return expression is written by hand from the source lines named in Quant/Grad.v; "
                                            "tie = tf.GradientTape vs dual-number evaluation on every generated point"])
 
 
